@@ -166,7 +166,7 @@ class Count(Factory, Container):
                 t = self.transform(numpy.array([weights]))
                 assert len(t.shape) == 1
                 assert t.shape[0] == 1
-                self.entries += float(t[0])
+                self.entries += float(t[0]) * shape[0]
 
         elif isinstance(weights, (int, float, numpy.number)):
             if self.transform is identity:
